@@ -5,6 +5,7 @@ import (
 	"encoding/json"
 	"errors"
 	"fmt"
+	"os"
 	"sort"
 	"sync"
 	"time"
@@ -171,15 +172,21 @@ type cluWorld struct {
 	workerCount int
 
 	// monitors
-	deploys   []deployRec
-	assigns   []assignRec
-	srAcks    []srAckRec
-	opAcks    []*snapshotpb.OperatorCheckpoint
-	published map[uint64]*snapshotpb.JobCheckpoint
-	newestPub uint64
-	streams   map[string][]streamItem    // "srID>opID" -> delivered items in order
-	regs      map[string]map[string]bool // job incarnation -> node id -> registered
-	startCkpt map[uint64]int
+	deploys      []deployRec
+	assigns      []assignRec
+	srAcks       []srAckRec
+	opAcks       []*snapshotpb.OperatorCheckpoint
+	published    map[uint64]*snapshotpb.JobCheckpoint
+	allPublished map[uint64]*snapshotpb.JobCheckpoint // including those of a job that was replaced by a savepoint restore
+	newestPub    uint64
+	streams      map[string][]streamItem    // "srID>opID" -> delivered items in order
+	regs         map[string]map[string]bool // job incarnation -> node id -> registered
+	startCkpt    map[uint64]int
+
+	savepoints            []uint64
+	restoredFromSavepoint bool
+	savepointID           uint64
+	abandonedUpTo         uint64 // checkpoints up to this id belong to assemblies that no longer exist
 }
 
 type deployRec struct {
@@ -191,6 +198,7 @@ type deployRec struct {
 	ckptID uint64
 	nCkpt  int
 	kgs    int
+	want   int // WorkerCount of the job at that time
 }
 
 type assignRec struct {
@@ -212,6 +220,7 @@ type streamItem struct {
 	wm   time.Time
 	ckpt uint64
 	ts   time.Time
+	at   time.Duration // simulated time of delivery
 }
 
 // --- job client (held by workers) ---
@@ -364,6 +373,7 @@ func (o *cluOpClient) Deploy(ctx context.Context, req *workerpb.DeployOperatorRe
 	}
 	o.w.mu.Lock()
 	rec.jobInc = o.w.jobInc
+	rec.want = o.w.workerCount
 	for _, d := range o.w.deploys {
 		if d.kind == "op" && d.target == rec.target {
 			o.w.c.AddTag("a surviving worker was redeployed in place")
@@ -398,9 +408,16 @@ func (o *cluOpClient) NeedsTable(ctx context.Context, uri string) (bool, error) 
 	// directly, without scheduling points
 	wk := o.worker()
 	if wk == nil || !o.w.net.alive(o.node.Host) {
+		if os.Getenv("VERIF_DEBUG") != "" {
+			fmt.Fprintf(os.Stderr, "NeedsTable %s -> %s %s: unreachable\n", o.from, o.node.Host, uri)
+		}
 		return false, errTransport
 	}
-	return wk.op.HandleNeedsTable(uri), nil
+	ans := wk.op.HandleNeedsTable(uri)
+	if os.Getenv("VERIF_DEBUG") != "" {
+		fmt.Fprintf(os.Stderr, "NeedsTable %s -> %s %s: %v\n", o.from, o.node.Host, uri, ans)
+	}
+	return ans, nil
 }
 
 // --- source runner client (held by the job) ---
@@ -425,6 +442,10 @@ func (s *cluSRClient) Deploy(ctx context.Context, req *workerpb.DeploySourceRunn
 	}
 	s.w.mu.Lock()
 	rec.jobInc = s.w.jobInc
+	rec.want = s.w.workerCount
+	for id := range s.w.startCkpt { // a new assembly: whatever was in flight is abandoned
+		s.w.abandonedUpTo = max(s.w.abandonedUpTo, id)
+	}
 	for _, d := range s.w.deploys {
 		if d.kind == "sr" && d.target == rec.target {
 			s.w.c.AddTag("a surviving worker was redeployed in place")
@@ -462,6 +483,9 @@ func (s *cluSRClient) AssignSplits(ctx context.Context, splits []*workerpb.Sourc
 }
 func (s *cluSRClient) StartCheckpoint(ctx context.Context, id uint64) error {
 	s.w.mu.Lock()
+	if other := s.w.inFlight(); other != 0 && other != id {
+		s.w.c.Violate(s.w.prop+"/two-checkpoints-in-progress", "StartCheckpoint(%d) was sent while checkpoint %d of the same assembly is still in progress", id, other)
+	}
 	s.w.startCkpt[id]++
 	s.w.mu.Unlock()
 	s.w.net.record("job", s.node.Host, "start-ckpt", fmt.Sprint(id))
@@ -491,6 +515,7 @@ func (w *cluWorld) noteDelivery(srID, opID string, ev *workerpb.Event) {
 	default:
 		return
 	}
+	it.at = w.c.S.SimTime()
 	w.mu.Lock()
 	k := srID + ">" + opID
 	w.streams[k] = append(w.streams[k], it)
